@@ -286,10 +286,16 @@ class RDMol2StereoMolGraph:
             elif rd_bond_stereo in (
                 Chem.BondStereo.STEREOZ,
                 Chem.BondStereo.STEREOE,
+                Chem.BondStereo.STEREOCIS,
+                Chem.BondStereo.STEREOTRANS,
             ):
+                # STEREOCIS / STEREOTRANS (RDKit's newer labels) refer to the
+                # stereo atoms exactly like STEREOZ / STEREOE
                 invert = {
                     Chem.BondStereo.STEREOZ: False,
                     Chem.BondStereo.STEREOE: True,
+                    Chem.BondStereo.STEREOCIS: False,
+                    Chem.BondStereo.STEREOTRANS: True,
                 }[rd_bond_stereo]
 
                 begin_stereo_atom: int
